@@ -37,6 +37,7 @@ type Req struct {
 	EOFWithData bool     `json:"eof_with_data"` // the last read returns (n>0, io.EOF)
 	Delay  time.Duration `json:"delay"`
 	Client int           `json:"client"`
+	AbortAfter int       `json:"abort_after,omitempty"` // >0: the transport fails after this many wire bytes (client went away)
 }
 
 type Cfg struct {
@@ -107,6 +108,9 @@ func (h *H) Gen(rng *rand.Rand, tier, prop string) core.Cfg {
 		if core.Chance(rng, 0.3) {
 			r.Delay = core.DurBetween(rng, time.Microsecond, 10*time.Millisecond)
 		}
+		if wire > 2 && core.Chance(rng, 0.12) {
+			r.AbortAfter = core.Between(rng, 1, wire-1)
+		}
 		c.Reqs = append(c.Reqs, r)
 	}
 	return c
@@ -173,11 +177,23 @@ type chunkReader struct {
 	sizes  []int
 	eofWithData bool
 	closed bool
+	abortAfter int
+	sent   int
 }
 
 func (c *chunkReader) Read(p []byte) (int, error) {
 	simrt.Point()
+	if c.abortAfter > 0 && c.sent >= c.abortAfter {
+		return 0, io.ErrUnexpectedEOF
+	}
+	if c.abortAfter > 0 && len(c.data) > c.abortAfter-c.sent {
+		c.data = c.data[:c.abortAfter-c.sent] // the rest never arrives
+		defer func() { c.eofWithData = false }()
+	}
 	if len(c.data) == 0 {
+		if c.abortAfter > 0 {
+			return 0, io.ErrUnexpectedEOF
+		}
 		return 0, io.EOF
 	}
 	n := len(c.data)
@@ -188,7 +204,8 @@ func (c *chunkReader) Read(p []byte) (int, error) {
 	n = min(n, len(p))
 	copy(p, c.data[:n])
 	c.data = c.data[n:]
-	if len(c.data) == 0 && c.eofWithData {
+	c.sent += n
+	if len(c.data) == 0 && c.eofWithData && c.abortAfter == 0 {
 		return n, io.EOF
 	}
 	return n, nil
@@ -313,7 +330,7 @@ func (h *H) Run(cc core.Cfg, sim *simrt.Sim) *core.Outcome {
 						hdr.Set("Content-Encoding", "gzip")
 					}
 					req := &http.Request{Method: http.MethodPost, URL: &url.URL{Path: "/"}, Header: hdr,
-						Body: &chunkReader{data: wire, sizes: append([]int(nil), r.Chunks...), eofWithData: r.EOFWithData}}
+						Body: &chunkReader{data: wire, sizes: append([]int(nil), r.Chunks...), eofWithData: r.EOFWithData, abortAfter: r.AbortAfter}}
 					w := &respWriter{hdr: http.Header{}}
 					res := &result{g: simrt.CurG(), w: w}
 					results[i] = res
@@ -392,6 +409,21 @@ func (h *H) check(o *core.Outcome, i int, r Req, calls []inRec, w *respWriter) {
 			sb.WriteString(" " + short(c.data))
 		}
 		return sb.String()
+	}
+	if r.AbortAfter > 0 {
+		// the body never arrived completely: no 200, and what was handed over is a prefix of the body's lines
+		// (for gzip nothing precise can be said about how far the decompressor got)
+		if w.status == 200 {
+			o.Violate("C11", "200-for-aborted-transfer", "the transfer broke after %d bytes but the request was answered 200; %s", r.AbortAfter, desc())
+			return
+		}
+		for k := 0; k < len(calls); k++ {
+			if k >= len(pieces) || string(calls[k].data) != pieces[k] {
+				o.Violate("C11", "wrong-line", "aborted transfer: event #%d is %s, which is not line #%d of the body; %s", k, short(calls[k].data), k, desc())
+				return
+			}
+		}
+		return
 	}
 	if w.status != 200 {
 		o.Violate("C11", "non-200", "status %d for a well-formed request; %s", w.status, desc())
